@@ -158,3 +158,34 @@ def run(ctx, R):
                         R.ob("C19:end-classification:%s@%d" % (short(p), n["ln"] - it["line"]), tbl == want,
                              "%s classifies position against length as %s; the oracle is %s" % (short(p), tbl, want), F.where(p))
         R.floor("position-vs-length classifications", n_cls, 3)
+        lines_follow_consumed_newlines(F, R, tag)
+
+
+def lines_follow_consumed_newlines(F, R, tag):
+    """position(position_and_lines_read(P, L)) "matches the data consumed": L counts the newlines consumed, whoever
+    consumed them. read_term adds the parser's line count; the character-level readers (get_char/2, get_code/2,
+    get_n_chars/3) must add one for every '\\n' they take out of the stream."""
+    n = 0
+    for name in ("get_char", "get_code", "get_n_chars"):
+        fn = F.find_impl("Machine", None, name)
+        body = F.hir(fn)["body"]
+        arms = []
+        for m in matches_in(body, src=None):
+            if not any(x["k"] == "MethodCall" and x["name"] == "read_char" for x in walk(m["scrut"])) and \
+                    not (m["scrut"]["k"] == "Path" and any(l["k"] == "Let" and l["pat"].get("name") == res_name(m["scrut"]) and "init" in l and
+                                                          any(x["k"] == "MethodCall" and x["name"] == "read_char" for x in walk(l["init"])) for l in walk(body))):
+                continue
+            for arm in m["arms"]:
+                leaves = pat_leaves(arm["pat"])
+                if any((res_name(l) or "").endswith("::Ok") for l in walk(arm["pat"]) if isinstance(l, dict)) and any(x.get("k") == "PBind" for x in walk(arm["pat"])):
+                    arms.append(arm)
+        if not arms:
+            raise AnchorLost("%s: the arm that receives a character from read_char() was not found" % name)
+        for i, arm in enumerate(arms):
+            n += 1
+            counts = any(x["k"] == "MethodCall" and x["name"] == "add_lines_read" for x in walk(arm["body"])) and \
+                any(x["k"] == "Lit" and (x.get("lit") or {}).get("char") == "\n" for x in walk(arm["body"]))
+            R.ob("C19:lines-read:%s#%d:newline-consumed-is-counted%s" % (name, i, tag), counts,
+                 "%s takes a character out of the stream without adding a consumed '\\n' to lines_read: after four get_char/2 calls on \"a\\nb\\nc\\n\" the position property "
+                 "is position_and_lines_read(4,0), and the line numbers of later syntax errors on that stream are off" % name, F.where(fn))
+    R.floor("character-level consuming reads", n, 3)
